@@ -389,4 +389,211 @@ theorem contentHash_canon_obj (H : Bytes → Bytes) {signed : EventParse.Obj} (h
   rw [getFirst_of_mem hSn hmemS]
   simp only [getFirst, List.find?_cons, beq_self_eq_true, Option.map_some, b64_decode_encode, hbytes]
 
+/-! ## The hashed members of what `Build` returns, member by member (for `C03.build_eventID_injective_proto`) -/
+
+open V.EventBuild in
+/-- the bytes `checkEventContentHash` hashes on what `Build` returns are the canonical encoding of the hashed members
+    `Build` assembled -/
+theorem hashedBytes_canon {signed : EventParse.Obj} (hd : (JVal.obj signed).noDupKeys = true)
+    (hk : ∀ kv ∈ signed, kv.1 ∈ allKeys) :
+    hashedBytes (canonMembers signed) = encodeCanon (.obj (signed.filter hashP)) := by
+  have hSn : (keysOf (canonMembers signed)).Nodup :=
+    (canonMembers_keys_perm signed).nodup_iff.mpr (keys_nodup_of_noDup hd)
+  unfold hashedBytes
+  rw [deleteKeys_eq_filter _ _ hSn]
+  apply encodeCanon_of_perm_cm _ (noDupKeys_filter hashP hd)
+  refine ((canonMembers_perm signed).filter _).trans ?_
+  rw [List.filter_map]
+  apply List.Perm.of_eq
+  congr 1
+  apply List.filter_congr
+  intro kv hkv
+  simp only [Function.comp, cm]
+  rw [hashKeys_contains kv.1 (hk kv hkv)]
+  rfl
+
+/-- an optional member -/
+def optM (k : Bytes) (o : Option JVal) : EventParse.Obj :=
+  match o with
+  | some v => [(k, v)]
+  | none => []
+
+theorem lookupExact_append_optM (l : EventParse.Obj) (k' k : Bytes) (o : Option JVal) :
+    lookupExact (l ++ optM k' o) k =
+      if k' == k then (match o with
+        | some v => some v
+        | none => lookupExact l k) else lookupExact l k := by
+  cases o with
+  | none => simp [optM]
+  | some v =>
+    show lookupExact (l ++ [(k', v)]) k = _
+    rw [lookupExact_eq, lastSome_append, lastSome_cons, lastSome_nil, ← lookupExact_eq]
+    dsimp only
+    cases (k' == k) <;> rfl
+
+open V.EventBuild in
+/-- `json.Marshal(&eventStruct)` as a sequence of optional members -/
+theorem membersOf_optM (pe : Proto) (content : JVal) (prev auth : List JVal) (eid : Bytes) (now : Nat) (origin : Bytes) :
+    membersOf pe content prev auth eid now origin =
+      [] ++ optM b!"sender" (some (.str pe.sender)) ++
+      optM b!"room_id" (if pe.roomID.isEmpty then none else some (.str pe.roomID)) ++
+      optM b!"type" (some (.str pe.type)) ++ optM b!"state_key" (pe.stateKey.map JVal.str) ++
+      optM b!"prev_events" (some (.arr prev)) ++ optM b!"auth_events" (some (.arr auth)) ++
+      optM b!"redacts" (if pe.redacts.isEmpty then none else some (.str pe.redacts)) ++
+      optM b!"depth" (some (.num (intLit pe.depth))) ++ optM b!"signatures" pe.signatures ++
+      optM b!"content" (some content) ++ optM b!"unsigned" pe.unsigned ++
+      optM b!"event_id" (some (.str eid)) ++ optM b!"origin_server_ts" (some (.num (natDigits now))) ++
+      optM b!"origin" (some (.str origin)) ++
+      optM b!"prev_state" (if pe.stateKey.isSome then some (.arr []) else none) := by
+  unfold membersOf
+  cases pe.stateKey <;> cases pe.signatures <;> cases pe.unsigned <;> cases pe.roomID.isEmpty <;> cases pe.redacts.isEmpty <;>
+    simp [optM]
+
+open V.EventBuild in
+/-- what the struct marshalling writes under each hashed key -/
+structure Lookups (pe : Proto) (content : JVal) (prev auth : List JVal) (now : Nat) (origin : Bytes) (M : EventParse.Obj) : Prop where
+  sender : lookupExact M b!"sender" = some (.str pe.sender)
+  roomID : lookupExact M b!"room_id" = if pe.roomID.isEmpty then none else some (.str pe.roomID)
+  type : lookupExact M b!"type" = some (.str pe.type)
+  stateKey : lookupExact M b!"state_key" = pe.stateKey.map JVal.str
+  prev : lookupExact M b!"prev_events" = some (.arr prev)
+  auth : lookupExact M b!"auth_events" = some (.arr auth)
+  redacts : lookupExact M b!"redacts" = if pe.redacts.isEmpty then none else some (.str pe.redacts)
+  depth : lookupExact M b!"depth" = some (.num (intLit pe.depth))
+  content : lookupExact M b!"content" = some content
+  ts : lookupExact M b!"origin_server_ts" = some (.num (natDigits now))
+  origin : lookupExact M b!"origin" = some (.str origin)
+
+open V.EventBuild in
+theorem membersOf_lookups (pe : Proto) (content : JVal) (prev auth : List JVal) (eid : Bytes) (now : Nat) (origin : Bytes) :
+    Lookups pe content prev auth now origin (membersOf pe content prev auth eid now origin) := by
+  rw [membersOf_optM]
+  constructor
+  · simp (config := { decide := true }) only [lookupExact_append_optM, ↓reduceIte]
+  · simp (config := { decide := true }) only [lookupExact_append_optM, ↓reduceIte]
+    cases pe.roomID.isEmpty <;> rfl
+  · simp (config := { decide := true }) only [lookupExact_append_optM, ↓reduceIte]
+  · simp (config := { decide := true }) only [lookupExact_append_optM, ↓reduceIte]
+    cases pe.stateKey <;> rfl
+  · simp (config := { decide := true }) only [lookupExact_append_optM, ↓reduceIte]
+  · simp (config := { decide := true }) only [lookupExact_append_optM, ↓reduceIte]
+  · simp (config := { decide := true }) only [lookupExact_append_optM, ↓reduceIte]
+    cases pe.redacts.isEmpty <;> rfl
+  · simp (config := { decide := true }) only [lookupExact_append_optM, ↓reduceIte]
+  · simp (config := { decide := true }) only [lookupExact_append_optM, ↓reduceIte]
+  · simp (config := { decide := true }) only [lookupExact_append_optM, ↓reduceIte]
+  · simp (config := { decide := true }) only [lookupExact_append_optM, ↓reduceIte]
+
+/-- the canonical form of the hashed members holds, under a hashed key other than `event_id`, the canonical form of what
+    the struct marshalling wrote -/
+theorem hashed_lookup {M : EventParse.Obj} (hn : (keysOf M).Nodup) (k : Bytes) (hk : hashP (k, .null) = true)
+    (hke : b!"event_id" ≠ k) :
+    lookupExact (canonMembers ((deleteFirst b!"event_id" M).filter hashP)) k =
+      (lookupExact M k).map (fun v => v.sorted.normNums) := by
+  have hnd : (keysOf ((deleteFirst b!"event_id" M).filter hashP)).Nodup :=
+    ((List.filter_sublist (l := _)).map _).nodup (deleteFirst_nodup _ _ hn)
+  rw [lookupExact_canon hnd, lookupExact_filter hashP k (fun kv h => by
+    show hashP (kv.1, JVal.null) = true
+    rw [h]; exact hk), lookupExact_deleteFirst_other M hke]
+
+/-! ### the values are determined by their canonical forms -/
+
+theorem digit_val : ∀ d, d < 10 → (digitByte d - 0x30).toNat = d := by decide
+
+open V.EventBuild in
+theorem natOfDigits_natDigits (n : Nat) : natOfDigits (natDigits n) = n := by
+  induction n using Nat.strongRecOn with
+  | _ n ih =>
+    rw [natDigits_eq]
+    by_cases h : n < 10
+    · rw [if_pos h]
+      simp only [natOfDigits, List.foldl_cons, List.foldl_nil, digit_val n h]
+      omega
+    · rw [if_neg h]
+      have := ih (n / 10) (by omega)
+      simp only [natOfDigits, List.foldl_append, List.foldl_cons, List.foldl_nil] at this ⊢
+      rw [this, digit_val _ (Nat.mod_lt _ (by decide))]
+      omega
+
+open V.EventBuild in
+theorem natDigits_inj {n m : Nat} (h : natDigits n = natDigits m) : n = m := by
+  rw [← natOfDigits_natDigits n, ← natOfDigits_natDigits m, h]
+
+open V.EventBuild in
+theorem natDigits_no_minus (n : Nat) (rest : Bytes) : natDigits n ≠ 0x2D :: rest := by
+  intro h
+  have := (natDigits_shape n).1 0x2D (by rw [h]; exact List.mem_cons_self)
+  revert this; decide
+
+open V.EventBuild in
+theorem intLit_inj {i j : Int} (h : intLit i = intLit j) : i = j := by
+  cases i with
+  | ofNat n =>
+    cases j with
+    | ofNat m => rw [natDigits_inj (show natDigits n = natDigits m from h)]
+    | negSucc m => exact absurd (show natDigits n = 0x2D :: natDigits (m + 1) from h) (natDigits_no_minus _ _)
+  | negSucc n =>
+    cases j with
+    | ofNat m => exact absurd (show natDigits m = 0x2D :: natDigits (n + 1) from h.symm) (natDigits_no_minus _ _)
+    | negSucc m =>
+      have h' : (0x2D : UInt8) :: natDigits (n + 1) = 0x2D :: natDigits (m + 1) := h
+      have := natDigits_inj (List.cons.inj h').2
+      have e : n = m := by omega
+      rw [e]
+
+open V.EventBuild in
+theorem encodeNum_natDigits (n : Nat) : encodeNum (natDigits n) = natDigits n := by
+  unfold encodeNum
+  rw [if_neg]
+  intro h
+  exact natDigits_no_minus n _ (beq_iff_eq.mp h)
+
+open V.EventBuild in
+theorem encodeNum_intLit (i : Int) : encodeNum (intLit i) = intLit i := by
+  cases i with
+  | ofNat n => exact encodeNum_natDigits n
+  | negSucc n =>
+    unfold encodeNum
+    rw [if_neg]
+    intro h
+    have h' : (0x2D : UInt8) :: natDigits (n + 1) = [0x2D, 0x30] := beq_iff_eq.mp h
+    have h0 : natDigits (n + 1) = natDigits 0 := (List.cons.inj h').2
+    have := natDigits_inj h0
+    omega
+
+theorem canon_strs (l : List Bytes) : (JVal.arr (l.map JVal.str)).sorted.normNums = .arr (l.map JVal.str) := by
+  have h1 : sortedList (l.map JVal.str) = l.map JVal.str := by
+    induction l with
+    | nil => rfl
+    | cons x xs ih => simp only [List.map_cons, sortedList, JVal.sorted, ih]
+  have h2 : normNumsList (l.map JVal.str) = l.map JVal.str := by
+    clear h1
+    induction l with
+    | nil => rfl
+    | cons x xs ih => simp only [List.map_cons, normNumsList, JVal.normNums, ih]
+  simp only [JVal.sorted, JVal.normNums, h1, h2]
+
+theorem map_str_inj {a b : List Bytes} (h : a.map JVal.str = b.map JVal.str) : a = b := by
+  induction a generalizing b with
+  | nil => cases b with
+    | nil => rfl
+    | cons y ys => cases h
+  | cons x xs ih => cases b with
+    | nil => cases h
+    | cons y ys =>
+      simp only [List.map_cons, List.cons.injEq, JVal.str.injEq] at h
+      rw [h.1, ih h.2]
+
+/-- a string member that is omitted when empty -/
+theorem optStr_inj {a b : Bytes}
+    (h : (if a.isEmpty then none else some (JVal.str a)).map (fun v => v.sorted.normNums) =
+         (if b.isEmpty then none else some (JVal.str b)).map (fun v => v.sorted.normNums)) : a = b := by
+  cases a with
+  | nil => cases b with
+    | nil => rfl
+    | cons y ys => simp at h
+  | cons x xs => cases b with
+    | nil => simp at h
+    | cons y ys => simpa [JVal.sorted, JVal.normNums] using h
+
 end V.IdInj
